@@ -262,7 +262,10 @@ def run_mutations(job, base, layout):
 
 
 def run_job(job):
-    base = tempfile.mkdtemp(prefix="verif_conf_")
+    top = tempfile.mkdtemp(prefix="verif_conf_")
+    # (a store root with characters a template engine might escape: a path is a path, whatever form it is given in)
+    base = os.path.join(top, "R&D <cache> 100%") if job.get("odd_root", True) else top
+    os.makedirs(base, exist_ok=True)
     old = Environment.get()
     try:
         env_spec = job["env"]
@@ -291,7 +294,7 @@ def run_job(job):
                 "exc": "build: %s: %s" % (type(e).__name__, str(e)[:200])}]}
     finally:
         Environment.set(old)
-        shutil.rmtree(base, ignore_errors=True)
+        shutil.rmtree(top, ignore_errors=True)
 
 
 def main():
